@@ -381,42 +381,58 @@ theorem C06_diff_reaches_target_counterexample_cert_content :
   intro h
   exact absurd (h (.certs 7)) (by decide)
 
-/-- **C06 (diff reaches the target), proved part: clusters and http/https frontends.** For
-    well-formed `A` and `B`, after replaying `diff A B` on `A` every cluster entry (health check
-    included) and every http / https frontend entry is exactly the one of `B`. (Listeners,
-    backends, tcp/udp fronts and certificates: see the counterexamples above for the last three;
-    they are tied to the code by the differential runs only.) -/
+/-- **C06 (diff reaches the target), proved part.** For well-formed `A` and `B`, after replaying
+    `diff A B` on `A`, every entry of the four listener maps (all fields and the activation
+    flag), every cluster entry (health check included) and every http / https frontend entry is
+    exactly the one of `B`. The maps left out — backends, tcp/udp fronts, certificates — are the
+    ones with the counterexamples above. -/
 theorem C06_diff_reaches_target_partial (env : Env) (A B : St) (hA : WF env A) (hB : WF env B) (t : Target)
-    (ht : sectionOf t = 4 ∨ sectionOf t = 5 ∨ sectionOf t = 7) :
+    (ht : sectionOf t ≠ 6 ∧ sectionOf t ≠ 8 ∧ sectionOf t ≠ 9 ∧ sectionOf t ≠ 10) :
     look (run env A (diff A B)) t = look B t := by
-  have sk : ∀ (w : Option Val) (cs : List Cmd) (n : Nat), n ≠ sectionOf t →
-      (∀ c ∈ cs, ∃ t', tgt c = some t' ∧ sectionOf t' = n) → foldT env t w cs = w := by
-    intro w cs n hn h
-    apply foldT_skip_sec
-    intro c hc
-    obtain ⟨t', h1, h2⟩ := h c hc
-    exact ⟨t', h1, by omega⟩
-  rw [look_run, foldT_diff_nonlistener env A B t _ (by omega)]
-  simp only [foldT_append]
+  rw [look_run]
   cases t <;> simp [sectionOf] at ht
+  case httpL a => exact listeners_reach env A B hA hB .http a
+  case httpsL a => exact listeners_reach env A B hA hB .https a
+  case tcpL a => exact listeners_reach env A B hA hB .tcp a
+  case udpL a => exact listeners_reach env A B hA hB .udp a
+  all_goals
+    have sk : ∀ (w : Option Val) (cs : List Cmd) (n : Nat) (t : Target), n ≠ sectionOf t →
+        (∀ c ∈ cs, ∃ t', tgt c = some t' ∧ sectionOf t' = n) → foldT env t w cs = w := by
+      intro w cs n t hn h
+      apply foldT_skip_sec
+      intro c hc
+      obtain ⟨t', h1, h2⟩ := h c hc
+      exact ⟨t', h1, by omega⟩
+    rw [foldT_diff_nonlistener env A B _ _ (by simp [sectionOf])]
+    simp only [foldT_append]
   case cluster id =>
     rw [clusters_reach env A B hA hB id,
-      sk _ _ 10 (by simp [sectionOf]) (sec_backends A B), sk _ _ 5 (by simp [sectionOf]) (sec_fronts A B false),
-      sk _ _ 7 (by simp [sectionOf]) (sec_fronts A B true), sk _ _ 8 (by simp [sectionOf]) (sec_tcpFronts A B false),
-      sk _ _ 9 (by simp [sectionOf]) (sec_tcpFronts A B true), sk _ _ 6 (by simp [sectionOf]) (sec_certs A B)]
+      sk _ _ 10 _ (by simp [sectionOf]) (sec_backends A B), sk _ _ 5 _ (by simp [sectionOf]) (sec_fronts A B false),
+      sk _ _ 7 _ (by simp [sectionOf]) (sec_fronts A B true), sk _ _ 8 _ (by simp [sectionOf]) (sec_tcpFronts A B false),
+      sk _ _ 9 _ (by simp [sectionOf]) (sec_tcpFronts A B true), sk _ _ 6 _ (by simp [sectionOf]) (sec_certs A B)]
   case httpF k =>
-    rw [sk _ _ 4 (by simp [sectionOf]) (sec_clusters A B), sk _ _ 10 (by simp [sectionOf]) (sec_backends A B)]
+    rw [sk _ _ 4 _ (by simp [sectionOf]) (sec_clusters A B), sk _ _ 10 _ (by simp [sectionOf]) (sec_backends A B)]
     have := fronts_reach env A B hA hB false k
     simp only [frontT, Bool.false_eq_true, if_false] at this
-    rw [this, sk _ _ 7 (by simp [sectionOf]) (sec_fronts A B true), sk _ _ 8 (by simp [sectionOf]) (sec_tcpFronts A B false),
-      sk _ _ 9 (by simp [sectionOf]) (sec_tcpFronts A B true), sk _ _ 6 (by simp [sectionOf]) (sec_certs A B)]
+    rw [this, sk _ _ 7 _ (by simp [sectionOf]) (sec_fronts A B true), sk _ _ 8 _ (by simp [sectionOf]) (sec_tcpFronts A B false),
+      sk _ _ 9 _ (by simp [sectionOf]) (sec_tcpFronts A B true), sk _ _ 6 _ (by simp [sectionOf]) (sec_certs A B)]
   case httpsF k =>
-    rw [sk _ _ 4 (by simp [sectionOf]) (sec_clusters A B), sk _ _ 10 (by simp [sectionOf]) (sec_backends A B),
-      sk _ _ 5 (by simp [sectionOf]) (sec_fronts A B false)]
+    rw [sk _ _ 4 _ (by simp [sectionOf]) (sec_clusters A B), sk _ _ 10 _ (by simp [sectionOf]) (sec_backends A B),
+      sk _ _ 5 _ (by simp [sectionOf]) (sec_fronts A B false)]
     have := fronts_reach env A B hA hB true k
     simp only [frontT, if_true] at this
-    rw [this, sk _ _ 8 (by simp [sectionOf]) (sec_tcpFronts A B false),
-      sk _ _ 9 (by simp [sectionOf]) (sec_tcpFronts A B true), sk _ _ 6 (by simp [sectionOf]) (sec_certs A B)]
+    rw [this, sk _ _ 8 _ (by simp [sectionOf]) (sec_tcpFronts A B false),
+      sk _ _ 9 _ (by simp [sectionOf]) (sec_tcpFronts A B true), sk _ _ 6 _ (by simp [sectionOf]) (sec_certs A B)]
+
+/-- non-vacuity / the activation case of the statement: a listener whose `front_timeout` changes
+    stays active through `Remove`, `Add(inactive)`, `Activate`. -/
+example :
+    let A : St := [(.httpsL 7, .hl httpsEx)]
+    let B : St := [(.httpsL 7, .hl { httpsEx with ft := 5 })]
+    diff A B = [.removeListener (some .https) 7, .addHttpsL { httpsEx with ft := 5, active := false },
+                .activate (some .https) 7] ∧
+    look (run envEx A (diff A B)) (.httpsL 7) = look B (.httpsL 7) := by
+  decide
 
 /-! ## C05 — a configuration survives every save / replay path unchanged -/
 
